@@ -1,126 +1,780 @@
+// c19: IBC transfers through the fx middleware credit or refund exactly once — correspondence + monitors on the REAL app.
+//
+// Histories of operations (sends from the EVM precompile, plain sends, inbound packets of every shape,
+// acknowledgements, timeouts, duplicated/replayed deliveries, pair toggles) are executed on the real app:
+// packets go through the real IBCMiddleware → ibc-go transfer stack (taken from the IBC router), wrapped in the
+// transcribed core rules (cache-and-discard on receive; commitment must exist for ack/timeout).  After every
+// operation balances (bank + ERC-20), relation records and the acknowledgement class are written next to the
+// operation into Cases_C19.v and compared with model/M_Ibc.v inside coqc.  Independent monitors evaluate the
+// property text on the same observables.
 package main
 
 import (
+	"bytes"
+	"crypto/sha256"
+	"encoding/json"
 	"fmt"
 	"math/big"
+	"os"
+	"sort"
+	"strings"
 
 	sdkmath "cosmossdk.io/math"
 	sdk "github.com/cosmos/cosmos-sdk/types"
 	"github.com/cosmos/cosmos-sdk/types/bech32"
+	authtypes "github.com/cosmos/cosmos-sdk/x/auth/types"
 	transfertypes "github.com/cosmos/ibc-go/v8/modules/apps/transfer/types"
 	clienttypes "github.com/cosmos/ibc-go/v8/modules/core/02-client/types"
 	channeltypes "github.com/cosmos/ibc-go/v8/modules/core/04-channel/types"
+	host "github.com/cosmos/ibc-go/v8/modules/core/24-host"
+	ibcexported "github.com/cosmos/ibc-go/v8/modules/core/exported"
 	"github.com/ethereum/go-ethereum/common"
+	"github.com/ethereum/go-ethereum/core/vm"
 
+	"github.com/functionx/fx-core/v8/contract"
 	fxtypes "github.com/functionx/fx-core/v8/types"
 	crosschaintypes "github.com/functionx/fx-core/v8/x/crosschain/types"
 	erc20types "github.com/functionx/fx-core/v8/x/erc20/types"
+	ibcmwtypes "github.com/functionx/fx-core/v8/x/ibc/middleware/types"
 
 	"fxverif/c18/tok"
 	"fxverif/lib"
 )
 
+const (
+	port   = "transfer"
+	nUsers = 3
+)
+
+type env struct {
+	c       *lib.Chain
+	r       *lib.Rand
+	rep     *lib.Report
+	chans   []string       // local channel ids: channel-0, channel-1
+	alias   [2]tok.Token   // model token ids 0,1 ; voucher alias of channel t
+	vAlias  [2]string      // voucher denoms
+	own     [2]tok.Token   // model token ids 10,11 ; Base = the voucher denom of channel t
+	users   []lib.Key
+	relayer sdk.AccAddress
+	cCaller, cRevert common.Address
+	accts   []int64 // model ids of derived memo-call senders that have an account
+	pxAddr  string
+	local   map[common.Address]string // every address that has a key, code or a module behind it
+}
+
+// ---- operations (JSON = replay format) ----
+type opT struct {
+	Kind   string `json:"op"` // sendevm|sendplain|recv|ack|timeout|ackraw|timeoutraw|toggle
+	Chan   int    `json:"chan"`
+	User   int    `json:"user"`
+	Denom  string `json:"denom"` // fx|alias0|alias1|own10|own11|unreg
+	Amt    int64  `json:"amt"`
+	Seq    uint64 `json:"seq"`
+	OK     bool   `json:"ok"`
+	// recv
+	Src      int    `json:"src"`
+	Sender   int    `json:"sender"`
+	RawDenom string `json:"raw_denom"`
+	Receiver string `json:"receiver"` // hex|bech32|bad
+	Memo     string `json:"memo"`     // none|text|bad|call|callrevert
+}
+
+type sentPk struct {
+	pkt    channeltypes.Packet
+	data   transfertypes.FungibleTokenPacketData
+	ch     int
+	seq    uint64
+	user   int
+	denom  string
+	amt    int64
+	evm    bool
+	reconv int // monitor: ERC-20 re-conversions seen for this (channel, sequence)
+	done   bool
+}
+
 func main() {
-	pxAddr, _ := bech32.ConvertAndEncode("px", make([]byte, 20))
-	c := lib.NewChain(1, 1, nil)
+	seed := lib.Seed()
+	e := &env{r: lib.NewRand(seed), rep: lib.NewReport("C19"), local: map[common.Address]string{}}
+	e.rep.Rule = "one case = one history of 12-30 operations on a branch of the real app: sends from the EVM precompile (ERC-20 of an alias token, native FX, refused kinds), plain sends (FX, alias voucher, own voucher), inbound packets (denom FX-return / own voucher / alias voucher / unregistered / wrong channel; receiver hex / bech32 / garbage; amount incl. 0; memo none / text / malformed call / call / reverting call, derived sender with or without account), ack ok|err, timeout, duplicated and replayed deliveries, pair toggles, two channels; " +
+		"non-trivial = the history contains a refund of an EVM-started transfer or an error acknowledgement after the transfer module had credited; distinct by operation list"
+	n := 30
+	if lib.Tier() == "thorough" {
+		n = 250
+	}
+	if strings.EqualFold(os.Getenv("VERIF_MODE"), "search") {
+		n *= 2
+	}
+	if v := lib.EnvInt("VERIF_N", 0); v > 0 {
+		n = int(v)
+	}
+	e.setup(seed)
+	if p := os.Getenv("VERIF_REPLAY"); p != "" && os.Getenv("VERIF_MODE") == "replay" {
+		e.replay(p)
+		return
+	}
+	var items []string
+	for _, h := range e.corpus() {
+		items = append(items, e.history(h))
+	}
+	for i := 0; i < n; i++ {
+		items = append(items, e.history(e.gen(i%2 == 0)))
+	}
+	lib.WriteCases("Cases_C19.v", []string{"model.M_Cache", "model.M_Ibc", "model.M_IbcCorr"}, "hist", items, "hist_mismatch")
+	e.rep.Write()
+}
+
+func (e *env) setup(seed int64) {
+	c := lib.NewChain(seed, 1, nil)
+	e.c = c
 	lib.Must(c.NextBlock())
-	port, ch := tok.Channel(c, c.Ctx, 1)
-	vA := tok.VoucherDenom(c, c.Ctx, port, ch, "uaaa")
-	A := tok.AddToken(c, c.Ctx, "eth", 0, true, vA)
-	B := tok.AddOwnVoucherToken(c, c.Ctx, port, ch, "ubbb")
+	ctx := c.Ctx
+	_, ch0 := tok.Channel(c, ctx, 1)
+	_, ch1 := tok.Channel(c, ctx, 5)
+	e.chans = []string{ch0, ch1}
+	for t := 0; t < 2; t++ {
+		e.vAlias[t] = tok.VoucherDenom(c, ctx, port, e.chans[t], fmt.Sprintf("ua%d", t))
+		e.alias[t] = tok.AddToken(c, ctx, "eth", t, true, e.vAlias[t])
+		e.own[t] = tok.AddOwnVoucherToken(c, ctx, port, e.chans[t], fmt.Sprintf("uo%d", t))
+		tok.VoucherDenom(c, ctx, port, e.chans[t], fmt.Sprintf("uo%d", t)) // users hold this voucher: it has been received before, so its trace is known
+	}
+	e.relayer = lib.EthKey(seed, "relayer", 0).Acc()
+	e.pxAddr, _ = bech32.ConvertAndEncode("px", make([]byte, 20))
+	for u := 0; u < nUsers; u++ {
+		k := lib.EthKey(seed, "ibc-user", u)
+		e.users = append(e.users, k)
+		e.local[k.Hex()] = fmt.Sprintf("user %d", u)
+		c.EnsureAccount(ctx, k.Acc())
+		c.Mint(k.Acc(), sdk.NewCoin(fxtypes.DefaultDenom, sdkmath.NewInt(1_000_000)))
+		for t := 0; t < 2; t++ {
+			c.Mint(k.Acc(), sdk.NewCoin(e.alias[t].Base, sdkmath.NewInt(5000)), sdk.NewCoin(e.own[t].Base, sdkmath.NewInt(1000)))
+			// the bridge module holds the bridge tokens behind the base coins
+			lib.Must(c.App.BankKeeper.MintCoins(ctx, "eth", sdk.NewCoins(sdk.NewCoin(e.alias[t].BridgeDenom, sdkmath.NewInt(5000)))))
+			_, err := c.App.Erc20Keeper.ConvertCoin(ctx, &erc20types.MsgConvertCoin{Coin: sdk.NewCoin(e.alias[t].Base, sdkmath.NewInt(3000)), Receiver: k.Hex().Hex(), Sender: k.Acc().String()})
+			lib.Must(err)
+		}
+	}
+	for t := 0; t < 2; t++ { // voucher pool of the transfer module
+		lib.Must(c.App.BankKeeper.MintCoins(ctx, transfertypes.ModuleName, sdk.NewCoins(sdk.NewCoin(e.vAlias[t], sdkmath.NewInt(4000)))))
+	}
+	e.cCaller = common.BytesToAddress([]byte{0xc0, 0xde, 0x19, 1})
+	c.InstallCode(ctx, e.cCaller, (&lib.Asm{}).Op(vm.CALLER).PushU(0).Op(vm.SSTORE).Stop().B)
+	e.cRevert = common.BytesToAddress([]byte{0xc0, 0xde, 0x19, 2})
+	c.InstallCode(ctx, e.cRevert, (&lib.Asm{}).SStore(1, 9).Revert().B)
+	e.local[e.cCaller], e.local[e.cRevert] = "contract", "contract"
+	// derived senders (remote channel 7, sender 0) and (8, 1) have been sent a coin before => they have an account
+	for _, p := range [][2]int{{7, 0}, {8, 1}} {
+		c.EnsureAccount(ctx, derived(p[0], p[1]).Bytes())
+		e.accts = append(e.accts, 1000+100*int64(p[0])+int64(p[1]))
+	}
+	c.App.AccountKeeper.IterateAccounts(ctx, func(a sdk.AccountI) bool {
+		if _, isMod := a.(sdk.ModuleAccountI); isMod || a.GetPubKey() != nil {
+			e.local[common.BytesToAddress(a.GetAddress())] = "account with key / module"
+		}
+		return false
+	})
+	for _, m := range []string{"transfer", "erc20", "eth", "evm", "gov", "mint", "distribution", "bonded_tokens_pool", "fee_collector"} {
+		e.local[common.BytesToAddress(authtypes.NewModuleAddress(m))] = "module " + m
+	}
 	lib.Must(c.NextBlock())
-	fmt.Println("channel", port, ch, "voucher", vA, "token", A, B)
-	mod, _ := c.App.IBCKeeper.Router.GetRoute("transfer")
+}
 
-	U := lib.EthKey(1, "u", 0)
-	relayer := lib.EthKey(1, "relayer", 0).Acc()
-	tmod := c.App.AccountKeeper.GetModuleAddress("transfer")
-	rel := func(ctx sdk.Context) []string {
-		var out []string
-		for _, kv := range c.DumpPrefix(ctx, erc20types.StoreKey, erc20types.KeyPrefixIBCTransfer) {
-			out = append(out, string(kv.K[1:]))
-		}
-		return out
-	}
-	show := func(tag string) {
-		fmt.Printf("%s: U bank A=%s vA=%s B=%s ercA=%s ercB=%s fx=%s | transfer mod vA=%s B=%s | supply vA=%s B=%s A=%s rel=%v\n", tag,
-			tok.Bank(c, c.Ctx, U.Acc(), A.Base), tok.Bank(c, c.Ctx, U.Acc(), vA), tok.Bank(c, c.Ctx, U.Acc(), B.Base),
-			tok.BalanceOf(c, c.Ctx, A.Erc20, U.Hex()), tok.BalanceOf(c, c.Ctx, B.Erc20, U.Hex()), tok.Bank(c, c.Ctx, U.Acc(), fxtypes.DefaultDenom),
-			tok.Bank(c, c.Ctx, tmod, vA), tok.Bank(c, c.Ctx, tmod, B.Base),
-			c.App.BankKeeper.GetSupply(c.Ctx, vA).Amount, c.App.BankKeeper.GetSupply(c.Ctx, B.Base).Amount, c.App.BankKeeper.GetSupply(c.Ctx, A.Base).Amount, rel(c.Ctx))
-	}
-	recv := func(denom, amt, receiver, memo string) {
-		data := transfertypes.NewFungibleTokenPacketData(denom, amt, "cosmos1sender", receiver, memo)
-		pkt := channeltypes.NewPacket(data.GetBytes(), 7, "transfer", "channel-9", port, ch, clienttypes.NewHeight(0, 1000), 0)
-		cctx, write := c.Ctx.CacheContext()
-		ack := mod.OnRecvPacket(cctx, pkt, relayer)
-		fmt.Println("recv", denom, receiver, "ack success", ack.Success(), string(ack.Acknowledgement()))
-		if ack.Success() {
-			write()
-		}
-	}
-	recv("ubbb", "1000", U.Hex().Hex(), "")
-	show("after recv B hex")
-	recv("ubbb", "1000", U.Acc().String(), "")
-	show("after recv B bech32")
-	recv("uaaa", "1000", U.Hex().Hex(), "")
-	show("after recv A hex")
+func remoteSender(i int) string { return fmt.Sprintf("remote1sender%d", i) }
 
-	// give U ERC-20 of A and fund the voucher pool
-	amt := sdk.NewCoins(sdk.NewCoin(A.Base, sdkmath.NewInt(5000)))
-	lib.Must(c.App.BankKeeper.MintCoins(c.Ctx, "mint", amt))
-	lib.Must(c.App.BankKeeper.SendCoinsFromModuleToAccount(c.Ctx, "mint", U.Acc(), amt))
-	_, err := c.App.Erc20Keeper.ConvertCoin(c.Ctx, &erc20types.MsgConvertCoin{Coin: amt[0], Receiver: U.Hex().Hex(), Sender: U.Acc().String()})
-	lib.Must(err)
-	pool := sdk.NewCoins(sdk.NewCoin(vA, sdkmath.NewInt(5000)))
-	lib.Must(c.App.BankKeeper.MintCoins(c.Ctx, "transfer", pool))
-	show("funded")
+// independent re-implementation of the documented derivation: last 20 bytes of sha256(sha256("port/channel") || sender)
+func derived(src, sender int) common.Address {
+	th := sha256.Sum256([]byte(fmt.Sprintf("%s/channel-%d", port, src)))
+	h := sha256.New()
+	h.Write(th[:])
+	h.Write([]byte(remoteSender(sender)))
+	return common.BytesToAddress(h.Sum(nil))
+}
 
-	send := func(token common.Address, a int64) {
-		pack, err := crosschaintypes.GetABI().Pack("crossChain", token, pxAddr, big.NewInt(a), big.NewInt(0), fxtypes.MustStrToByte32("ibc/0/px"), "")
-		lib.Must(err)
-		r := c.EvmCall(c.Ctx, U.Hex(), &token, nil, 1_000_000, approve(lib.CrosschainPrecompile, big.NewInt(a)))
-		fmt.Println("approve", r.Failed, r.VmError, r.Err)
-		target := lib.CrosschainPrecompile
-		r = c.EvmCall(c.Ctx, U.Hex(), &target, nil, 3_000_000, pack)
-		fmt.Println("crossChain", r.Failed, r.VmError, r.Err)
-	}
-	send(A.Erc20, 300)
-	show("after send A 300")
-	send(B.Erc20, 100)
-	show("after send B 100")
-	seq, _ := c.App.IBCKeeper.ChannelKeeper.GetNextSequenceSend(c.Ctx, port, ch)
-	fmt.Println("next seq", seq)
-	com := c.App.IBCKeeper.ChannelKeeper.GetPacketCommitment(c.Ctx, port, ch, 1)
-	fmt.Printf("commitment %x\n", com)
-	// reconstruct the packet
-	data := transfertypes.NewFungibleTokenPacketData("transfer/channel-0/uaaa", "300", U.Acc().String(), pxAddr, "")
-	timeout := uint64(c.Ctx.BlockTime().UnixNano()) + uint64(c.App.Erc20Keeper.GetIbcTimeout(c.Ctx))
-	pkt := channeltypes.NewPacket(data.GetBytes(), 1, port, ch, port, ch, clienttypes.ZeroHeight(), timeout)
-	fmt.Printf("reconstructed %x\n", channeltypes.CommitPacket(c.App.AppCodec(), pkt))
+// ---------------------------------------------------------------------------------------------
+// generator
 
-	okAck := channeltypes.NewResultAcknowledgement([]byte{1}).Acknowledgement()
-	errAck := channeltypes.NewErrorAcknowledgement(fmt.Errorf("x")).Acknowledgement()
-	{
-		err := c.Try(func(ctx sdk.Context) error { return mod.OnAcknowledgementPacket(ctx, pkt, okAck, relayer) })
-		fmt.Println("ack ok err=", err)
-		show("after ack ok")
-	}
-	{
-		err := c.Try(func(ctx sdk.Context) error { return mod.OnAcknowledgementPacket(ctx, pkt, errAck, relayer) })
-		fmt.Println("ack err err=", err)
-		show("after ack err (replayed)")
-	}
-	{
-		err := c.Try(func(ctx sdk.Context) error { return mod.OnTimeoutPacket(ctx, pkt, relayer) })
-		fmt.Println("timeout err=", err)
-		show("after timeout (replayed)")
+func (e *env) corpus() [][]opT {
+	return [][]opT{
+		// EVM send, success ack (the relation record should go), then timeout of a second one, replayed
+		{{Kind: "sendevm", Chan: 0, User: 0, Denom: "alias0", Amt: 300}, {Kind: "ack", Chan: 0, Seq: 1, OK: true},
+			{Kind: "sendevm", Chan: 0, User: 0, Denom: "alias0", Amt: 200}, {Kind: "timeout", Chan: 0, Seq: 2},
+			{Kind: "timeoutraw", Chan: 0, Seq: 2}, {Kind: "ackraw", Chan: 0, Seq: 2, OK: false}, {Kind: "ackraw", Chan: 0, Seq: 1, OK: false}},
+		// error ack, pair disabled at refund time, then enabled
+		{{Kind: "sendevm", Chan: 1, User: 1, Denom: "alias1", Amt: 70}, {Kind: "toggle", Denom: "alias1"}, {Kind: "ack", Chan: 1, Seq: 5, OK: false},
+			{Kind: "toggle", Denom: "alias1"}, {Kind: "ack", Chan: 1, Seq: 5, OK: false}, {Kind: "ack", Chan: 1, Seq: 5, OK: false}},
+		// inbound shapes
+		{{Kind: "recv", Chan: 0, Src: 7, Sender: 0, RawDenom: "uo0", Denom: "own10", Amt: 50, Receiver: "hex", User: 2, Memo: "none"},
+			{Kind: "recv", Chan: 0, Src: 7, Sender: 0, RawDenom: "uo0", Denom: "own10", Amt: 50, Receiver: "bech32", User: 2, Memo: "none"},
+			{Kind: "recv", Chan: 0, Src: 7, Sender: 0, RawDenom: "ua0", Denom: "alias0", Amt: 50, Receiver: "hex", User: 2, Memo: "none"},
+			{Kind: "recv", Chan: 0, Src: 7, Sender: 0, RawDenom: "uo0", Denom: "own10", Amt: 5, Receiver: "hex", User: 1, Memo: "call"},
+			{Kind: "recv", Chan: 0, Src: 7, Sender: 2, RawDenom: "uo0", Denom: "own10", Amt: 5, Receiver: "hex", User: 1, Memo: "call"},
+			{Kind: "recv", Chan: 0, Src: 7, Sender: 0, RawDenom: "uo0", Denom: "own10", Amt: 5, Receiver: "hex", User: 1, Memo: "callrevert"},
+			{Kind: "recv", Chan: 1, Src: 8, Sender: 1, RawDenom: "uo1", Denom: "own11", Amt: 5, Receiver: "hex", User: 1, Memo: "text"},
+			{Kind: "recv", Chan: 1, Src: 8, Sender: 1, RawDenom: "uo1", Denom: "own11", Amt: 5, Receiver: "hex", User: 1, Memo: "bad"},
+			{Kind: "sendplain", Chan: 0, User: 0, Denom: "fx", Amt: 500},
+			{Kind: "recv", Chan: 0, Src: 7, Sender: 0, RawDenom: "fxback", Denom: "fx", Amt: 100, Receiver: "hex", User: 2, Memo: "none"},
+			{Kind: "recv", Chan: 0, Src: 7, Sender: 0, RawDenom: "fxback", Denom: "fx", Amt: 100, Receiver: "bech32", User: 2, Memo: "call"},
+			{Kind: "recv", Chan: 0, Src: 7, Sender: 0, RawDenom: "fxback", Denom: "fx", Amt: 1000, Receiver: "hex", User: 2, Memo: "none"}},
+		// plain sends refunded: never ERC-20
+		{{Kind: "sendplain", Chan: 0, User: 1, Denom: "alias0", Amt: 40}, {Kind: "sendplain", Chan: 0, User: 1, Denom: "own10", Amt: 30},
+			{Kind: "sendevm", Chan: 0, User: 1, Denom: "fx", Amt: 20}, {Kind: "sendevm", Chan: 0, User: 1, Denom: "own10", Amt: 20},
+			{Kind: "timeout", Chan: 0, Seq: 1}, {Kind: "ack", Chan: 0, Seq: 2, OK: false}, {Kind: "timeout", Chan: 0, Seq: 3},
+			{Kind: "timeoutraw", Chan: 0, Seq: 1}, {Kind: "ackraw", Chan: 0, Seq: 3, OK: false}},
 	}
 }
 
-func approve(spender common.Address, amt *big.Int) []byte {
+func (e *env) gen(avoidKnown bool) []opT {
+	r := e.r
+	n := 12 + r.Intn(19)
+	var ops []opT
+	next := []uint64{1, 5}
+	type fl struct {
+		ch  int
+		seq uint64
+		evm bool
+	}
+	var inflight, all, completed []fl
+	_ = all
+	for i := 0; i < n; i++ {
+		switch x := r.Intn(100); {
+		case x < 22:
+			ch := r.Intn(2)
+			o := opT{Kind: "sendevm", Chan: ch, User: r.Intn(nUsers), Denom: fmt.Sprintf("alias%d", ch), Amt: int64(1 + r.Intn(400))}
+			switch r.Intn(10) {
+			case 0:
+				o.Denom = "fx"
+			case 1:
+				o.Denom = fmt.Sprintf("own1%d", ch)
+			case 2:
+				o.Denom = fmt.Sprintf("alias%d", 1-ch) // no voucher alias for this channel
+			case 3:
+				o.Amt = 3500 // more than the user holds
+			}
+			ops = append(ops, o)
+			ok := (o.Denom == fmt.Sprintf("alias%d", ch) && o.Amt <= 400) || o.Denom == "fx"
+			if ok { // optimistic bookkeeping; the executor knows the truth
+				f := fl{ch, next[ch], o.Denom != "fx"}
+				next[ch]++
+				inflight, all = append(inflight, f), append(all, f)
+			}
+		case x < 32:
+			ch := r.Intn(2)
+			d := []string{"fx", fmt.Sprintf("alias%d", ch), fmt.Sprintf("own1%d", ch)}[r.Intn(3)]
+			ops = append(ops, opT{Kind: "sendplain", Chan: ch, User: r.Intn(nUsers), Denom: d, Amt: int64(1 + r.Intn(150))})
+			f := fl{ch, next[ch], false}
+			next[ch]++
+			inflight, all = append(inflight, f), append(all, f)
+		case x < 62:
+			ch := r.Intn(2)
+			o := opT{Kind: "recv", Chan: ch, Src: 7 + r.Intn(2), Sender: r.Intn(3), User: r.Intn(nUsers), Amt: int64(1 + r.Intn(300))}
+			switch r.Intn(8) {
+			case 0, 1, 2:
+				o.RawDenom, o.Denom = fmt.Sprintf("uo%d", ch), fmt.Sprintf("own1%d", ch)
+			case 3:
+				o.RawDenom, o.Denom = fmt.Sprintf("ua%d", ch), fmt.Sprintf("alias%d", ch)
+			case 4:
+				o.RawDenom, o.Denom = fmt.Sprintf("uo%d", 1-ch), "unreg" // the other channel's denom: a different voucher here
+			case 5:
+				o.RawDenom, o.Denom = "ufoo", "unreg"
+			default:
+				o.RawDenom, o.Denom = "fxback", "fx"
+			}
+			o.Receiver = []string{"hex", "hex", "hex", "bech32", "bad"}[r.Intn(5)]
+			o.Memo = []string{"none", "none", "text", "bad", "call", "call", "callrevert"}[r.Intn(7)]
+			if r.Chance(5) {
+				o.Amt = 0
+			}
+			ops = append(ops, o)
+		case x < 84 && len(inflight) > 0:
+			j := r.Intn(len(inflight))
+			f := inflight[j]
+			inflight = append(inflight[:j], inflight[j+1:]...)
+			completed = append(completed, f)
+			switch r.Intn(3) {
+			case 0:
+				if avoidKnown && f.evm {
+					ops = append(ops, opT{Kind: "timeout", Chan: f.ch, Seq: f.seq})
+				} else {
+					ops = append(ops, opT{Kind: "ack", Chan: f.ch, Seq: f.seq, OK: true})
+				}
+			case 1:
+				ops = append(ops, opT{Kind: "ack", Chan: f.ch, Seq: f.seq, OK: false})
+			default:
+				ops = append(ops, opT{Kind: "timeout", Chan: f.ch, Seq: f.seq})
+			}
+			if r.Chance(30) { // duplicated delivery through the core
+				ops = append(ops, opT{Kind: []string{"ack", "timeout"}[r.Intn(2)], Chan: f.ch, Seq: f.seq, OK: r.Chance(50)})
+			}
+		case x < 94 && len(completed) > 0:
+			// replays of deliveries that already happened (the core refuses them; handed straight to the application)
+			f := completed[r.Intn(len(completed))]
+			if r.Chance(50) {
+				ops = append(ops, opT{Kind: "ackraw", Chan: f.ch, Seq: f.seq, OK: r.Chance(30)})
+			} else {
+				ops = append(ops, opT{Kind: "timeoutraw", Chan: f.ch, Seq: f.seq})
+			}
+		default:
+			ops = append(ops, opT{Kind: "toggle", Denom: []string{"alias0", "alias1", "own10", "own11"}[r.Intn(4)]})
+		}
+	}
+	return ops
+}
+
+// ---------------------------------------------------------------------------------------------
+// executor
+
+func (e *env) tokenOf(d string) (tok.Token, int64, bool) {
+	switch d {
+	case "alias0":
+		return e.alias[0], 0, true
+	case "alias1":
+		return e.alias[1], 1, true
+	case "own10":
+		return e.own[0], 10, true
+	case "own11":
+		return e.own[1], 11, true
+	}
+	return tok.Token{}, -1, false
+}
+
+func coqDenom(d string) string {
+	switch d {
+	case "fx":
+		return "DFx"
+	case "alias0":
+		return "(DAlias 0)"
+	case "alias1":
+		return "(DAlias 1)"
+	case "own10":
+		return "(DOwn 10)"
+	case "own11":
+		return "(DOwn 11)"
+	}
+	return "DUnreg"
+}
+
+type wkey struct{ h, k, t int64 }
+
+func (e *env) watch() []wkey {
+	var ks []wkey
+	toks := []int64{0, 1, 10, 11}
+	for u := int64(0); u < nUsers; u++ {
+		for _, t := range toks {
+			ks = append(ks, wkey{u, 0, t}, wkey{u, 2, t})
+		}
+		ks = append(ks, wkey{u, 1, 0}, wkey{u, 1, 1}, wkey{u, 3, 0})
+	}
+	for _, t := range toks {
+		ks = append(ks, wkey{-4, 0, t}, wkey{-2, 0, t}, wkey{-3, 0, t}, wkey{-3, 2, t})
+	}
+	for _, t := range []int64{0, 1} {
+		ks = append(ks, wkey{-4, 1, t}, wkey{-3, 1, t})
+	}
+	ks = append(ks, wkey{-10, 3, 0}, wkey{-11, 3, 0})
+	return ks
+}
+
+func (e *env) tokByID(t int64) tok.Token {
+	if t >= 10 {
+		return e.own[t-10]
+	}
+	return e.alias[t]
+}
+
+func (e *env) read(ctx sdk.Context, k wkey) *big.Int {
+	c := e.c
+	var who sdk.AccAddress
+	switch {
+	case k.h >= 0:
+		who = e.users[k.h].Acc()
+	case k.h == -4:
+		who = authtypes.NewModuleAddress(transfertypes.ModuleName)
+	case k.h == -2:
+		who = authtypes.NewModuleAddress(erc20types.ModuleName)
+	case k.h <= -10:
+		who = transfertypes.GetEscrowAddress(port, e.chans[-k.h-10])
+	}
+	switch k.k {
+	case 0:
+		if k.h == -3 {
+			return c.App.BankKeeper.GetSupply(ctx, e.tokByID(k.t).Base).Amount.BigInt()
+		}
+		return tok.Bank(c, ctx, who, e.tokByID(k.t).Base).BigInt()
+	case 1:
+		if k.h == -3 {
+			return c.App.BankKeeper.GetSupply(ctx, e.vAlias[k.t]).Amount.BigInt()
+		}
+		return tok.Bank(c, ctx, who, e.vAlias[k.t]).BigInt()
+	case 2:
+		if k.h == -3 {
+			var res struct{ Value *big.Int }
+			lib.Must(c.App.EvmKeeper.QueryContract(ctx, common.BytesToAddress(authtypes.NewModuleAddress(erc20types.ModuleName)), e.tokByID(k.t).Erc20, contract.GetFIP20().ABI, "totalSupply", &res))
+			return res.Value
+		}
+		return tok.BalanceOf(c, ctx, e.tokByID(k.t).Erc20, e.users[k.h].Hex())
+	default:
+		return tok.Bank(c, ctx, who, fxtypes.DefaultDenom).BigInt()
+	}
+}
+
+func (e *env) snapshot(ctx sdk.Context) string {
+	var items []string
+	for _, k := range e.watch() {
+		items = append(items, lib.Pair(fmt.Sprintf("(%s, %d, %s)", lib.Z(k.h), k.k, lib.Z(k.t)), lib.ZBig(e.read(ctx, k))))
+	}
+	return lib.List(items)
+}
+
+func (e *env) relations(ctx sdk.Context) (string, map[string]bool) {
+	var items []string
+	set := map[string]bool{}
+	for _, kv := range e.c.DumpPrefix(ctx, erc20types.StoreKey, erc20types.KeyPrefixIBCTransfer) {
+		s := string(kv.K[1:]) // channel-N/seq
+		set[s] = true
+		var ch, seq int64
+		fmt.Sscanf(s, "channel-%d/%d", &ch, &seq)
+		items = append(items, lib.Pair(lib.Z(ch), lib.Z(seq)))
+	}
+	return lib.List(items), set
+}
+
+func tryOn(ctx sdk.Context, f func(ctx sdk.Context) error) (err error) {
+	cctx, write := ctx.CacheContext()
+	defer func() {
+		if r := recover(); r != nil {
+			err = fmt.Errorf("PANIC: %v", r)
+		}
+	}()
+	if e := f(cctx); e != nil {
+		return e
+	}
+	write()
+	return nil
+}
+
+func approveData(spender common.Address, amt *big.Int) []byte {
 	out := []byte{0x09, 0x5e, 0xa7, 0xb3}
 	out = append(out, common.LeftPadBytes(spender.Bytes(), 32)...)
-	out = append(out, common.LeftPadBytes(amt.Bytes(), 32)...)
-	return out
+	return append(out, common.LeftPadBytes(amt.Bytes(), 32)...)
 }
+
+func (e *env) erc20All(ctx sdk.Context, who common.Address) map[int64]*big.Int {
+	m := map[int64]*big.Int{}
+	for _, t := range []int64{0, 1, 10, 11} {
+		m[t] = tok.BalanceOf(e.c, ctx, e.tokByID(t).Erc20, who)
+	}
+	return m
+}
+
+func (e *env) fail(sig, what string, ops []opT, i int, extra interface{}) {
+	e.rep.Fail(lib.Failure{Kind: "monitor", Sig: sig, What: what,
+		Replay: map[string]interface{}{"ops": ops[:i+1], "at": i, "detail": extra}})
+}
+
+// history executes ops on a fresh branch of the real state and returns the Coq case.
+func (e *env) history(ops []opT) string {
+	c := e.c
+	B, _ := c.Ctx.CacheContext()
+	stack := tok.TransferStack(c)
+	init := e.snapshot(B)
+	var seqs []string
+	for i, ch := range e.chans {
+		q, _ := c.App.IBCKeeper.ChannelKeeper.GetNextSequenceSend(B, port, ch)
+		seqs = append(seqs, lib.Pair(lib.Z(int64(i)), lib.ZU(q)))
+	}
+	sent := map[string]*sentPk{}
+	key := func(ch int, seq uint64) string { return fmt.Sprintf("%d/%d", ch, seq) }
+	nontrivial := false
+	var items []string
+	recvSeq := uint64(0)
+
+	for i, o := range ops {
+		kind := 0
+		var coq string
+		switch o.Kind {
+		case "sendevm", "sendplain":
+			ch := e.chans[o.Chan]
+			user := e.users[o.User]
+			seq, _ := c.App.IBCKeeper.ChannelKeeper.GetNextSequenceSend(B, port, ch)
+			tk, _, isTok := e.tokenOf(o.Denom)
+			timeout := uint64(B.BlockTime().UnixNano()) + uint64(c.App.Erc20Keeper.GetIbcTimeout(B))
+			ok := false
+			var pathDenom string
+			if o.Kind == "sendevm" {
+				token, value := tk.Erc20, (*big.Int)(nil)
+				if o.Denom == "fx" {
+					token, value = common.Address{}, big.NewInt(o.Amt)
+				} else {
+					c.EvmCall(B, user.Hex(), &token, nil, 1_000_000, approveData(lib.CrosschainPrecompile, big.NewInt(o.Amt)))
+				}
+				input, err := crosschaintypes.GetABI().Pack("crossChain", token, e.pxAddr, big.NewInt(o.Amt), big.NewInt(0),
+					fxtypes.MustStrToByte32(fmt.Sprintf("ibc/%d/px", o.Chan)), "")
+				lib.Must(err)
+				pre := lib.CrosschainPrecompile
+				res := c.EvmCall(B, user.Hex(), &pre, value, 3_000_000, input)
+				ok = res.Err == nil && !res.Failed
+			} else {
+				err := tryOn(B, func(ctx sdk.Context) error {
+					coin := sdk.NewCoin(fxtypes.DefaultDenom, sdkmath.NewInt(o.Amt))
+					if isTok {
+						coin = sdk.NewCoin(tk.Base, sdkmath.NewInt(o.Amt))
+						if strings.HasPrefix(o.Denom, "alias") { // the bridge's SendToFx->IBC path (transferIBCHandler)
+							var err error
+							coin, err = c.App.EthKeeper.BaseCoinToIBCCoin(ctx, coin, user.Acc(), fmt.Sprintf("ibc/%d/px", o.Chan))
+							if err != nil {
+								return err
+							}
+						}
+					}
+					_, err := c.App.IBCTransferKeeper.Transfer(ctx, transfertypes.NewMsgTransfer(port, ch, coin, user.Acc().String(), e.pxAddr, clienttypes.ZeroHeight(), timeout, ""))
+					return err
+				})
+				ok = err == nil
+			}
+			if ok {
+				switch {
+				case o.Denom == "fx":
+					pathDenom = fxtypes.DefaultDenom
+				case strings.HasPrefix(o.Denom, "alias"):
+					pathDenom = fmt.Sprintf("%s/%s/ua%d", port, ch, o.Chan)
+				default:
+					pathDenom = fmt.Sprintf("%s/%s/uo%d", port, ch, o.Chan)
+				}
+				data := transfertypes.NewFungibleTokenPacketData(pathDenom, fmt.Sprint(o.Amt), user.Acc().String(), e.pxAddr, "")
+				pkt := channeltypes.NewPacket(data.GetBytes(), seq, port, ch, port, ch, clienttypes.ZeroHeight(), timeout)
+				got := c.App.IBCKeeper.ChannelKeeper.GetPacketCommitment(B, port, ch, seq)
+				if !bytes.Equal(got, channeltypes.CommitPacket(c.App.AppCodec(), pkt)) {
+					e.rep.Fail(lib.Failure{Kind: "harness", What: fmt.Sprintf("cannot reconstruct the packet sent by op %d (%+v): commitment differs", i, o)})
+				}
+				sent[key(o.Chan, seq)] = &sentPk{pkt: pkt, data: data, ch: o.Chan, seq: seq, user: o.User, denom: o.Denom, amt: o.Amt,
+					evm: o.Kind == "sendevm" && o.Denom != "fx"}
+				kind = 1
+			} else {
+				kind = 2
+			}
+			cons := "SendFromEvm"
+			if o.Kind == "sendplain" {
+				cons = "SendPlain"
+			}
+			coq = fmt.Sprintf("%s %d %d %s %d", cons, o.Chan, o.User, coqDenom(o.Denom), o.Amt)
+
+		case "recv":
+			ch := e.chans[o.Chan]
+			user := e.users[o.User]
+			raw := o.RawDenom
+			if raw == "fxback" {
+				raw = fmt.Sprintf("%s/channel-%d/%s", port, o.Src, fxtypes.DefaultDenom)
+			}
+			receiver, addrOK, isHex := user.Hex().Hex(), true, true
+			switch o.Receiver {
+			case "bech32":
+				receiver, isHex = user.Acc().String(), false
+			case "bad":
+				receiver, addrOK, isHex = "0xnothex", false, false
+			}
+			memo, coqMemo := "", "NoMemo"
+			switch o.Memo {
+			case "text":
+				memo, coqMemo = "thanks!", "MemoText"
+			case "bad":
+				memo, coqMemo = tok.MemoCall(c, "0x12", nil, 0), "MemoBad"
+			case "call":
+				memo, coqMemo = tok.MemoCall(c, e.cCaller.Hex(), nil, 0), "(MemoCall false)"
+			case "callrevert":
+				memo, coqMemo = tok.MemoCall(c, e.cRevert.Hex(), nil, 0), "(MemoCall true)"
+			}
+			data := transfertypes.NewFungibleTokenPacketData(raw, fmt.Sprint(o.Amt), remoteSender(o.Sender), receiver, memo)
+			recvSeq++
+			pkt := tok.InPacket(recvSeq, fmt.Sprintf("channel-%d", o.Src), port, ch, data)
+
+			// monitor observables before
+			preDump := c.DumpAll(B)
+			ercBefore := e.erc20All(B, user.Hex())
+			bankBefore := c.App.BankKeeper.GetAllBalances(B, user.Acc())
+			c.App.EvmKeeper.SetState(B, e.cCaller, common.Hash{}, nil)
+			preDump = c.DumpAll(B)
+			ok, _ := tok.CoreRecv(c, B, pkt, e.relayer)
+			if ok {
+				kind = 1
+			} else {
+				kind = 2
+			}
+			// ---- monitor: credit exactly as ERC-20 or nothing + error acknowledgement
+			if !ok {
+				if d := lib.DiffDumps(preDump, c.DumpAll(B)); len(d) > 0 {
+					e.fail("C19:recv:error-ack-left-state", "inbound packet answered with an error acknowledgement changed state", ops, i, d)
+				}
+				if addrOK && o.Amt > 0 && o.Denom != "fx" && isHex {
+					nontrivial = true
+				}
+			} else {
+				ercAfter := e.erc20All(B, user.Hex())
+				bankAfter := c.App.BankKeeper.GetAllBalances(B, user.Acc())
+				sumErc, nTok := big.NewInt(0), 0
+				for t, b := range ercAfter {
+					if d := new(big.Int).Sub(b, ercBefore[t]); d.Sign() != 0 {
+						sumErc.Add(sumErc, d)
+						nTok++
+					}
+				}
+				bankDelta := bankAfter.Sub(bankBefore...)
+				if o.RawDenom == "fxback" {
+					// reading: the native coin stays the native (EVM) balance — exactly the amount, no ERC-20
+					want := sdk.NewCoins(sdk.NewCoin(fxtypes.DefaultDenom, sdkmath.NewInt(o.Amt)))
+					if !bankDelta.Equal(want) || nTok != 0 {
+						e.fail("C19:recv:fx-credit", "inbound native FX did not credit exactly the amount as native coin", ops, i, fmt.Sprint(bankDelta, sumErc))
+					}
+				} else {
+					if !isHex {
+						e.fail("C19:recv:bech32-credited", "inbound non-native token to a bech32 receiver was accepted (not credited as ERC-20)", ops, i, fmt.Sprint(bankDelta))
+					}
+					if nTok != 1 || sumErc.Cmp(big.NewInt(o.Amt)) != 0 || !bankDelta.IsZero() {
+						e.fail("C19:recv:hex-credit", "inbound token to a hex receiver: success acknowledgement without exactly the amount as ERC-20", ops, i,
+							fmt.Sprintf("erc20 delta %s over %d tokens, bank delta %s", sumErc, nTok, bankDelta))
+					}
+				}
+				// ---- monitor: memo call sender
+				if o.Memo == "call" {
+					got := common.BytesToAddress(c.App.EvmKeeper.GetState(B, e.cCaller, common.Hash{}).Bytes())
+					want := derived(o.Src, o.Sender)
+					if got != want {
+						e.fail("C19:memo:sender", "memo call executed with a sender other than the one derived from (port, channel, original sender)", ops, i, fmt.Sprint(got, want))
+					}
+					if who, isLocal := e.local[got]; isLocal {
+						e.fail("C19:memo:impersonation", "memo call executed as a local account: "+who, ops, i, got.Hex())
+					}
+					if c.App.EvmKeeper.IsContract(B, got) {
+						e.fail("C19:memo:impersonation", "memo call sender is a contract", ops, i, got.Hex())
+					}
+					if acc := c.App.AccountKeeper.GetAccount(B, got.Bytes()); acc != nil && acc.GetPubKey() != nil {
+						e.fail("C19:memo:impersonation", "memo call sender has a public key", ops, i, got.Hex())
+					}
+				}
+			}
+			coq = fmt.Sprintf("Recv (mk_in %d %d %d %s %d %s %s %d %s)", o.Src, o.Chan, o.Sender, coqDenom(o.Denom), o.Amt,
+				lib.Bool(addrOK), lib.Bool(isHex), o.User, coqMemo)
+
+		case "ack", "timeout", "ackraw", "timeoutraw":
+			sp := sent[key(o.Chan, o.Seq)]
+			raw := strings.HasSuffix(o.Kind, "raw")
+			isAck := strings.HasPrefix(o.Kind, "ack")
+			delivered := false
+			var cbErr error
+			if sp != nil {
+				ch := e.chans[o.Chan]
+				user := e.users[sp.user]
+				ercBefore := e.erc20All(B, user.Hex())
+				bankBefore := c.App.BankKeeper.GetAllBalances(B, user.Acc())
+				has := len(c.App.IBCKeeper.ChannelKeeper.GetPacketCommitment(B, port, ch, o.Seq)) > 0
+				if raw || has {
+					cbErr = tryOn(B, func(ctx sdk.Context) error {
+						if !raw {
+							// ibc-go core Acknowledgement/Timeout: the commitment is deleted before the callback (transcribed)
+							ctx.KVStore(c.App.GetKey(ibcexported.StoreKey)).Delete(host.PacketCommitmentKey(port, ch, o.Seq))
+						}
+						if isAck {
+							ack := channeltypes.NewResultAcknowledgement([]byte{1})
+							if !o.OK {
+								ack = channeltypes.NewErrorAcknowledgement(fmt.Errorf("refused"))
+							}
+							return stack.OnAcknowledgementPacket(ctx, sp.pkt, ack.Acknowledgement(), e.relayer)
+						}
+						return stack.OnTimeoutPacket(ctx, sp.pkt, e.relayer)
+					})
+					delivered = cbErr == nil
+				}
+				// ---- monitors: refund form and count, record removal
+				ercAfter := e.erc20All(B, user.Hex())
+				bankDelta := c.App.BankKeeper.GetAllBalances(B, user.Acc()).Sub(bankBefore...)
+				ercDelta := big.NewInt(0)
+				for t, b := range ercAfter {
+					ercDelta.Add(ercDelta, new(big.Int).Sub(b, ercBefore[t]))
+				}
+				if ercDelta.Sign() != 0 {
+					sp.reconv++
+					if !sp.evm {
+						e.fail("C19:refund:erc20-for-non-evm", "a transfer that did not start in the EVM was refunded as ERC-20", ops, i, ercDelta.String())
+					}
+					if sp.reconv > 1 {
+						e.fail("C19:refund:twice", "the ERC-20 re-conversion of one (channel, sequence) happened more than once", ops, i, key(o.Chan, o.Seq))
+					}
+					if ercDelta.Cmp(big.NewInt(sp.amt)) != 0 {
+						e.fail("C19:refund:amount", "ERC-20 refund differs from the amount sent", ops, i, ercDelta.String())
+					}
+				}
+				if delivered && !raw {
+					refundOp := !(isAck && o.OK)
+					if refundOp && sp.evm {
+						nontrivial = true
+						if ercDelta.Cmp(big.NewInt(sp.amt)) != 0 || !bankDelta.IsZero() {
+							e.fail("C19:refund:form", "an EVM-started transfer was not refunded exactly once in ERC-20 form", ops, i,
+								fmt.Sprintf("erc20 delta %s bank delta %s", ercDelta, bankDelta))
+						}
+					}
+					if _, set := e.relations(B); set[fmt.Sprintf("%s/%d", ch, o.Seq)] {
+						what := "timeout"
+						if isAck && o.OK {
+							what = "success"
+						} else if isAck {
+							what = "failure"
+						}
+						e.fail("C19:relation-kept:"+what, "the tracking record of a transfer is still there after its "+what+" was processed", ops, i, fmt.Sprintf("%s/%d", ch, o.Seq))
+					}
+				}
+			}
+			switch o.Kind {
+			case "ack":
+				coq = fmt.Sprintf("Ack %d %d %s", o.Chan, o.Seq, lib.Bool(o.OK))
+			case "timeout":
+				coq = fmt.Sprintf("Timeout %d %d", o.Chan, o.Seq)
+			case "ackraw":
+				coq = fmt.Sprintf("AckRaw %d %d %s", o.Chan, o.Seq, lib.Bool(o.OK))
+			default:
+				coq = fmt.Sprintf("TimeoutRaw %d %d", o.Chan, o.Seq)
+			}
+
+		case "toggle":
+			tk, id, _ := e.tokenOf(o.Denom)
+			p, _ := c.App.Erc20Keeper.GetTokenPair(B, tk.Base)
+			tok.SetEnabled(c, B, tk, !p.Enabled)
+			coq = fmt.Sprintf("TogglePair %d", id)
+		}
+		e.rep.Count("op=" + o.Kind)
+		if o.Kind == "recv" {
+			e.rep.Count(fmt.Sprintf("recv:%s/%s/%s:ack=%d", o.Denom, o.Receiver, o.Memo, kind))
+		}
+		rel, _ := e.relations(B)
+		items = append(items, lib.Pair(coq, fmt.Sprintf("mk_obs %d %s %s", kind, e.snapshot(B), rel)))
+	}
+	bz, _ := json.Marshal(ops)
+	e.rep.Case(string(bz), nontrivial)
+	e.rep.Sample(ops)
+	var pairs []int64
+	for _, t := range []int64{0, 1, 10, 11} {
+		if p, ok := c.App.Erc20Keeper.GetTokenPair(c.Ctx, e.tokByID(t).Base); ok && p.Enabled {
+			pairs = append(pairs, t)
+		}
+	}
+	sort.Slice(pairs, func(i, j int) bool { return pairs[i] < pairs[j] })
+	return fmt.Sprintf("mk_hist %s %s %s %s\n   %s", init, lib.ZList(pairs), lib.ZList(e.accts), lib.List(seqs), lib.List(items))
+}
+
+func (e *env) replay(path string) {
+	var r struct {
+		Replay struct {
+			Ops []opT `json:"ops"`
+		} `json:"replay"`
+	}
+	bz, err := os.ReadFile(path)
+	lib.Must(err)
+	lib.Must(json.Unmarshal(bz, &r))
+	e.history(r.Replay.Ops)
+	for _, f := range e.rep.Failures {
+		out, _ := json.MarshalIndent(f, "", " ")
+		fmt.Println(string(out))
+	}
+	if len(e.rep.Failures) == 0 {
+		fmt.Println("no monitor failure on this tree")
+	}
+}
+
+var _ = ibcmwtypes.IntermediateSender
